@@ -18,8 +18,9 @@ Next == /\ l <= Len(Rec)
            /\ Chk("tpc_rst", t.trig[30], s.trig[19]) /\ Chk("tof", t.trig[31], s.trig[20])
            \* errors: the total equals the number of messages (in the file, and shown on stderr: nothing is muted / filtered / capped in these runs);
            \* the distinct codes are those of the messages shown
-           /\ Chk("total_errors", s.reported, s.total_errors) /\ Chk("errors_shown", Len(ev.shown), s.total_errors)
-           /\ Chk("unique_error_codes", {ev.shown[k] : k \in 1..Len(ev.shown)} \ {"NOCODE"}, {s.unique_error_codes[k] : k \in 1..Len(s.unique_error_codes)})
+           /\ Chk("total_errors", s.reported, s.total_errors)
+           /\ (IF ev.muted THEN TRUE ELSE Chk("errors_shown", Len(ev.shown), s.total_errors))          \* (a muted run shows nothing; its statistics are judged all the same)
+           /\ (IF ev.muted THEN TRUE ELSE Chk("unique_error_codes", {ev.shown[k] : k \in 1..Len(ev.shown)} \ {"NOCODE"}, {s.unique_error_codes[k] : k \in 1..Len(s.unique_error_codes)}))
            \* the report (not printed in view mode / when data goes to stdout) shows the same values
            /\ (ev.report.has => /\ Chk("report_total_errors", ToString(s.total_errors), ev.report.total_errors)
                                 /\ Chk("report_total_rdhs", ToString(t.rdhs_seen), ev.report.total_rdhs)
